@@ -6,7 +6,7 @@
    C. an accepted never-seen room: every entry's author is an administrator of the parsed history at
       the entry's date, and the room decides what its rows grant;
    D. closed witnesses of the three open known-finding classes and of the repaired one.
-   State of /repo: after 83dc3ea (oldest-first export) and 85b1827 (prepare_new_auth). *)
+   State of /repo: after 83dc3ea (oldest-first export), 85b1827 (prepare_new_auth), cd32c02 (check_placed). *)
 From Coq Require Import Permutation.
 From DV Require Import RightsSpec RightsP RoomNode RoomNodeP Run_C07.
 
@@ -557,6 +557,99 @@ Proof.
   intros probes. apply parse_room_decisions. exact Hp.
 Qed.
 
+(* ------------------------------------------------------------------ C'. what check_placed (cd32c02) guarantees *)
+Definition referenced (es : list edge) (label : N) (ids : list uid) : Prop :=
+  forall i, In i ids -> exists e, In e es /\ e_dest e = i /\ e_label e = label.
+
+Lemma check_placed_from_sound es label ids : forall seen,
+  check_placed_from seen es label ids = POk tt ->
+  NoDup ids /\ (forall i, In i ids -> ~ In i seen) /\ referenced es label ids.
+Proof.
+  induction ids as [|i tl IH]; cbn [check_placed_from]; intros seen H.
+  - split; [constructor|]. split; [intros ? []|intros ? []].
+  - destruct (existsb (N.eqb i) seen) eqn:Hs; [discriminate|].
+    destruct (negb (existsb (fun e => N.eqb (e_dest e) i && N.eqb (e_label e) label) es)) eqn:Hp; [discriminate|].
+    apply negb_false_iff in Hp. apply existsb_exists in Hp. destruct Hp as (e & He & Hm).
+    apply andb_true_iff in Hm. destruct Hm as [Hd Hl]. apply N.eqb_eq in Hd, Hl.
+    destruct (IH _ H) as (Hnd & Hns & Href).
+    assert (Hi : ~ In i seen).
+    { intros Hin. rewrite <- not_true_iff_false in Hs. apply Hs. apply existsb_exists. exists i. split; [exact Hin|apply N.eqb_refl]. }
+    split; [constructor; [intros Hin; apply (Hns i Hin); left; reflexivity|exact Hnd]|].
+    split.
+    + intros j [<-|Hj]; [exact Hi|]. intros Hin. apply (Hns j Hj). right. exact Hin.
+    + intros j [<-|Hj]; [exists e; auto|apply Href; exact Hj].
+Qed.
+Lemma check_placed_sound es label ids :
+  check_placed es label ids = POk tt -> NoDup ids /\ referenced es label ids.
+Proof. intros H. destruct (check_placed_from_sound _ _ _ _ H) as (H1 & _ & H3). auto. Qed.
+
+Definition auth_placed (a : anode) : Prop :=
+  NoDup (map rn_id (an_rnodes a)) /\ referenced (an_redges a) L_RIGHTS (map rn_id (an_rnodes a)) /\
+  NoDup (map un_id (an_unodes a)) /\ referenced (an_uedges a) L_USERS (map un_id (an_unodes a)) /\
+  NoDup (map un_id (an_anodes a)) /\ referenced (an_aedges a) L_UADMIN (map un_id (an_anodes a)).
+
+Lemma pres_unit (x : pres unit) : (exists e, x = PErr e) \/ x = POk tt.
+Proof. destruct x as [[]|e]; [right; reflexivity|left; eauto]. Qed.
+
+Lemma check_auth_placed a : check_auth a = POk tt -> auth_placed a.
+Proof.
+  unfold check_auth, pbind. intros H.
+  destruct (negb (Nat.eqb (length (an_redges a)) (length (an_rnodes a)))); [discriminate|].
+  destruct (check_edges (an_id a) 8 9 (map rn_id (an_rnodes a)) (an_redges a)); [|discriminate].
+  destruct (negb (Nat.eqb (length (an_uedges a)) (length (an_unodes a)))); [discriminate|].
+  destruct (check_edges (an_id a) 11 12 (map un_id (an_unodes a)) (an_uedges a)); [|discriminate].
+  destruct (negb (Nat.eqb (length (an_aedges a)) (length (an_anodes a)))); [discriminate|].
+  destruct (check_edges (an_id a) 8 9 (map un_id (an_anodes a)) (an_aedges a)); [|discriminate].
+  destruct (check_placed (an_redges a) L_RIGHTS (map rn_id (an_rnodes a))) as [[]|] eqn:P1; [|discriminate].
+  destruct (check_placed (an_uedges a) L_USERS (map un_id (an_unodes a))) as [[]|] eqn:P2; [|discriminate].
+  destruct (check_placed_sound _ _ _ P1) as [A1 A2]. destruct (check_placed_sound _ _ _ P2) as [B1 B2].
+  destruct (check_placed_sound _ _ _ H) as [C1 C2]. unfold auth_placed. auto 10.
+Qed.
+
+Lemma check_auth_edges_all cid gs es :
+  check_auth_edges cid gs es = POk tt ->
+  forall e, In e es -> exists a, find (fun a => N.eqb (an_id a) (e_dest e)) gs = Some a /\ check_auth a = POk tt.
+Proof.
+  induction es as [|e0 tl IH]; cbn [check_auth_edges]; intros H e He; [contradiction|].
+  destruct (negb (N.eqb (e_src e0) cid)); [discriminate|].
+  destruct (find (fun a => N.eqb (an_id a) (e_dest e0)) gs) as [a|] eqn:Hf; [|discriminate].
+  unfold pbind in H. destruct (check_auth a) as [[]|] eqn:Hc; [|discriminate].
+  destruct He as [<-|He]; [exists a; auto|apply IH; assumption].
+Qed.
+
+Lemma nodup_map_inj {A} (f : A -> N) l a b : NoDup (map f l) -> In a l -> In b l -> f a = f b -> a = b.
+Proof.
+  induction l as [|x tl IH]; simpl; intros Hnd Ha Hb Hf; [contradiction|].
+  inversion Hnd as [|? ? Hx Ht]; subst.
+  destruct Ha as [<-|Ha]; destruct Hb as [<-|Hb]; [reflexivity| | |apply IH; assumption].
+  - exfalso. apply Hx. rewrite Hf. apply in_map. exact Hb.
+  - exfalso. apply Hx. rewrite <- Hf. apply in_map. exact Ha.
+Qed.
+
+(* a candidate that passes check_consistency: in every list each id appears once and every row is the
+   destination of a reference of that list under the list's field name - the former class 4 and the
+   "no reference" / "reference of another field" variants of the former class 1 cannot be accepted *)
+Theorem consistent_placed n :
+  check_consistency n = POk tt ->
+  NoDup (map un_id (rmn_anodes n)) /\ referenced (rmn_aedges n) L_ADMIN (map un_id (rmn_anodes n)) /\
+  NoDup (map an_id (rmn_gnodes n)) /\ referenced (rmn_gedges n) L_AUTHS (map an_id (rmn_gnodes n)) /\
+  forall g, In g (rmn_gnodes n) -> auth_placed g.
+Proof.
+  unfold check_consistency, pbind. intros H.
+  destruct (negb (Nat.eqb (length (rmn_aedges n)) (length (rmn_anodes n)))); [discriminate|].
+  destruct (check_edges (rmn_id n) 2 3 (map un_id (rmn_anodes n)) (rmn_aedges n)); [|discriminate].
+  destruct (check_placed (rmn_aedges n) L_ADMIN (map un_id (rmn_anodes n))) as [[]|] eqn:P1; [|discriminate].
+  destruct (negb (Nat.eqb (length (rmn_gedges n)) (length (rmn_gnodes n)))); [discriminate|].
+  destruct (check_auth_edges (rmn_id n) (rmn_gnodes n) (rmn_gedges n)) as [[]|] eqn:P2; [|discriminate].
+  destruct (check_placed_sound _ _ _ P1) as [A1 A2]. destruct (check_placed_sound _ _ _ H) as [B1 B2].
+  split; [exact A1|]. split; [exact A2|]. split; [exact B1|]. split; [exact B2|].
+  intros g Hg. destruct (B2 (an_id g) (in_map an_id _ _ Hg)) as (e & He & Hd & _).
+  destruct (check_auth_edges_all _ _ _ P2 e He) as (a0 & Hf & Hc).
+  apply find_some in Hf. destruct Hf as [Ha Hid]. apply N.eqb_eq in Hid.
+  assert (a0 = g) as -> by (eapply nodup_map_inj; eauto; congruence).
+  apply check_auth_placed. exact Hc.
+Qed.
+
 (* ------------------------------------------------------------------ D. closed witnesses (the harness replays them as directed cases) *)
 Definition U_ (id date author k : Z) (b : bool) : unode := Build_unode (Z.to_N id) date (Z.to_N author) (Z.to_N k) b.
 Definition R_ (id date author e : Z) (s a : bool) : rnode := Build_rnode (Z.to_N id) date (Z.to_N author) (Z.to_N e) s a.
@@ -596,7 +689,7 @@ Definition wk3 : c07case :=
   CPrep (Some w_base)
         (w_later_g (w_g11 [U_ 901 5000 3 3 true] [U_ 902 5000 3 5 true]
                           [E_ 11 35 901 5000 3] [E_ 11 34 902 5000 3])) wp.
-(* class 4: a second row with the id of the administrator's entry, riding on an honest update *)
+(* former class 4 (repaired by cd32c02): a second row with the id of the administrator's entry, riding on an honest update *)
 Definition wk4 : c07case :=
   CPrep (Some w_base)
         (RM_ 1 1000 1000 1 [E_ 1 32 100 1000 1; E_ 1 32 100 5000 3]
@@ -613,7 +706,24 @@ Lemma refuted_k2 : accepted_and_fails wk2 2. Proof. vm_compute. auto. Qed.
 (* the witness of the repaired class 3 is refused now (site 41), the oracle holds on it *)
 Lemma repaired_k3 : known_C07 wk3 = [] /\ run_C07 wk3 = [141] /\ spec_C07 wk3 (run_C07 wk3) = true.
 Proof. vm_compute. auto. Qed.
-Lemma refuted_k4 : accepted_and_fails wk4 4. Proof. vm_compute. auto. Qed.
+(* the witness of the repaired class 4 is refused now (site 70), the oracle holds on it *)
+Lemma repaired_k4 : known_C07 wk4 = [] /\ run_C07 wk4 = [170] /\ spec_C07 wk4 (run_C07 wk4) = true.
+Proof. vm_compute. auto. Qed.
+(* the variants of the former class 1 that cd32c02 closes: the user entry carried into the user-admin
+   list by the administrator's own "users" reference; a self-signed row riding on a reference listed twice *)
+Definition wk1b : c07case :=
+  CPrep (Some w_base)
+        (RM_ 1 1000 1000 1 [E_ 1 32 100 1000 1] [w_admin] [E_ 1 33 10 1000 1]
+             [G_ 10 1000 1 [E_ 10 33 101 1000 1] [R_ 101 1000 1 0 true false]
+                 [E_ 10 34 102 1000 1] [w_user3] [E_ 10 34 102 1000 1] [w_user3]]) wp.
+Definition wk1c : c07case :=
+  CPrep (Some w_base)
+        (RM_ 1 1000 1000 1 [E_ 1 32 100 1000 1; E_ 1 32 100 1000 1] [w_admin; U_ 900 5000 1 3 true]
+             [E_ 1 33 10 1000 1] [w_g10 [] []]) wp.
+Lemma repaired_k1_variants :
+  known_C07 wk1b = [] /\ run_C07 wk1b = [171] /\ spec_C07 wk1b (run_C07 wk1b) = true /\
+  known_C07 wk1c = [] /\ run_C07 wk1c = [171] /\ spec_C07 wk1c (run_C07 wk1c) = true.
+Proof. vm_compute. repeat split; reflexivity. Qed.
 Lemma nonvacuous_k0 :
   known_C07 wk0 = [] /\ hd 0 (run_C07 wk0) = 1 /\ spec_C07 wk0 (run_C07 wk0) = true /\
   known_C07 wk0' = [] /\ hd 0 (run_C07 wk0') = 1 /\ spec_C07 wk0' (run_C07 wk0') = true.
@@ -631,6 +741,6 @@ Definition uadmin_after (c : c07case) (k : key) (d : Z) : option bool :=
   option_map (fun r => existsb (fun a => can_admin_users a k d) (rm_auths r)) (accepted_room c).
 Lemma attacker_gains :
   admin_after wk0 3%N 6000 = Some false /\
-  admin_after wk1 3%N 6000 = Some true /\ admin_after wk2 3%N 6000 = Some true /\ admin_after wk4 3%N 6000 = Some true /\
+  admin_after wk1 3%N 6000 = Some true /\ admin_after wk2 3%N 6000 = Some true /\ admin_after wk4 3%N 6000 = None /\
   uadmin_after wk0 3%N 6000 = Some false /\ uadmin_after wk3 3%N 6000 = None.
 Proof. vm_compute. repeat split; reflexivity. Qed.
